@@ -266,7 +266,14 @@ class Gen:
             a.append(("idlocation", nf["idlocation"]))
         r = self.rng.random()
         if r < 0.3:
-            d, ms = self.rng.choice([("50ms", 50), ("1.5s", 1500), ("2m", 120000), (".5s", 500), ("0s", 0), ("1h", 3600000)])
+            if self.r(0.5):
+                d, ms = self.rng.choice([("50ms", 50), ("1.5s", 1500), ("2m", 120000), (".5s", 500), ("0s", 0), ("1h", 3600000)])
+            else:
+                # boundaries of the number encodings of the binary format and of 32-bit arithmetic
+                ms = self.rng.choice([15, 16, 255, 256, 4095, 4096, (1 << 20) - 1, 1 << 20, (1 << 28) - 1, 1 << 28, (1 << 31) - 1,
+                                      1 << 31, (1 << 32) - 1, 1 << 32, (1 << 32) + 10, 1 << 36, (1 << 36) + 1, 1 << 44, 1 << 52,
+                                      (1 << 53) - 1, 4320000000])
+                d = "50d" if ms == 4320000000 else "%dms" % ms
             nf["delay_ms"] = ms
             a.append(("delay", d))
         elif r < 0.4:
